@@ -68,6 +68,11 @@ LITERALS = [
     ("squote-unknown", "SELECT '$nosuchvar'", "$nosuchvar"),
     ("dollar-quoted", "SELECT $$a $v1 b$$", "a $v1 b"),
     ("squote-mid", "SELECT 'x$v10y'", "x$v10y"),
+    ("dollar-quoted-multiline", "SELECT $$line one\ncosts $v1 and $nosuchvar\nline three$$", "line one\ncosts $v1 and $nosuchvar\nline three"),
+    ("squote-multiline", "SELECT 'first\nsecond $v1\nthird $nosuchvar'", "first\nsecond $v1\nthird $nosuchvar"),
+    ("dquote-identifier", 'SELECT 1 AS "cost $v1"', 1),
+    ("line-comment", "SELECT 'x' -- it's $nosuchvar here\n", "x"),
+    ("block-comment", "SELECT /* don't $nosuchvar */ 'y'", "y"),
 ]
 
 
@@ -101,8 +106,11 @@ def gen_cases(tier: str, seed: int):
                 steps.append(["use", conn, cur, r.choice([nm, nm.upper(), nm.lower()]), r.choice(POSITIONS)])
             elif x < 0.93:
                 steps.append(["literal", conn, cur, r.randrange(len(LITERALS))])
-            else:
+            elif x < 0.97:
                 steps.append(["undefined", conn, cur, r.choice(["nosuch", "zz9", "v1_undefined"])])
+            else:
+                steps.append(["undefined_between_bound_strings", conn, cur, r.choice(["nosuch", "zz9"]),
+                              r.choice([["a'b", "c'd"], ["it's", "x'"], ["\\'", "q'q"], ["plain", "o'k"], ["a''b", "'"]])])
         yield {"steps": steps}
 
 
@@ -310,6 +318,19 @@ def run_case(case: dict, env: core.Env) -> None:
                 env.witness(f"C15/literal/{lk}/error-{out['exc']['cls']}/{state}", f"{sql}: {out['exc']}")
             elif out["rows"] != [(exp,)]:
                 env.witness(f"C15/literal/{lk}/rewritten/{state}", f"{sql} -> {out['rows']} expected {[(exp,)]}")
+        elif kind == "undefined_between_bound_strings":
+            # an undefined variable is refused wherever it stands, also between bound strings that contain quotes
+            name, (p1, p2) = step[3], step[4]
+            if name.upper() in model[ci]:
+                continue
+            calls0 = tap.CALLS
+            try:
+                cur.execute(f"SELECT %s AS A, ${name} AS V, %s AS B", (p1, p2))
+                out = {"ok": True, "rows": cur.fetchall()}
+            except Exception as e:  # noqa: BLE001
+                out = {"ok": False, "exc": core.exc_info(e)}
+            env.count("cmp_undefined")
+            _check_undefined(env, out, name, tap.CALLS - calls0, "between-bound-strings-with-quotes")
         elif kind == "undefined":
             name = step[3]
             if name.upper() in model[ci]:
